@@ -32,6 +32,7 @@
 import PyTough.Proofs.ConvertSpec
 import PyTough.Proofs.ConvertWaiwera
 import PyTough.Proofs.ConvertOrder
+import PyTough.Proofs.ConvertGeneral
 namespace Props.C20
 open Py Model.Convert Gen.ConvertTables Proofs.Convert
 
@@ -97,20 +98,19 @@ theorem to_tough2_other_sections (mp : Bool) (d d' : T2) (h : convertToTough2 mp
   obtain ⟨st, _, rfl⟩ := convertToTough2_ok h
   rfl
 
-/-- Generators: when the listed objects are distinct, the list afterwards consists of exactly
-    the generators that are not to be deleted, in their order, each unchanged except that a
-    convertible type is replaced as tabled; every type left is one TOUGH2 has. -/
+/-- Generators, for *any* generator list (an object may be listed more than once; `SameObj` only says that
+    entries with one identity are one record): the list afterwards consists of exactly the generators that are
+    not to be deleted, in their order, each unchanged except that a convertible type is replaced as tabled;
+    every type left is one TOUGH2 has. -/
 theorem to_tough2_generators (mp : Bool) (d d' : T2) (h : convertToTough2 mp d = (d', none))
-    (hid : (d.gens.map (·.id)).Nodup) :
+    (hid : SameObj d.gens) :
     d'.gens = (d.gens.filter (fun g => !toDelete g)).map convGen ∧
     (∀ g ∈ d'.gens, isTough2Type g.type = true) ∧
     (∀ g, (convGen g).id = g.id ∧ (convGen g).block = g.block ∧ (convGen g).name = g.name ∧
           (convGen g).payload = g.payload ∧
           (convGen g).type = ((convert.lookup g.type).getD g.type)) := by
   obtain ⟨st, _, rfl⟩ := convertToTough2_ok h
-  · have hg : (tough2Of mp st d).gens = (d.gens.filter (fun g => !toDelete g)).map convGen := by
-      have := convertGenerators_gens d hid
-      exact this
+  · have hg : (tough2Of mp st d).gens = (d.gens.filter (fun g => !toDelete g)).map convGen := convGensList_eq d.gens hid
     refine ⟨hg, ?_, ?_⟩
     · intro g hm
       rw [hg] at hm
@@ -130,38 +130,55 @@ theorem to_tough2_generators (mp : Bool) (d d' : T2) (h : convertToTough2 mp d =
       unfold convGen
       cases convert.lookup g.type <;> rfl
 
+/-- distinct objects are a special case -/
+theorem distinct_objects_same_obj (gens : List Gener) (h : (gens.map (·.id)).Nodup) : SameObj gens :=
+  sameObj_of_nodup gens h
 
-/-- The lookup after conversion holds exactly the former entries that do not point to a deleted
-    generator (for a lookup whose keys are distinct and whose entries carry the block and name of
-    the generator they point to): unsupported generators leave the lookup as well as the list. -/
+/-- The lookup after conversion, with nothing assumed about what its entries point to (its keys are
+    distinct because it is a dict): an entry disappears exactly when it is the entry *of* a deleted
+    generator — stored under that generator's (block, name) and pointing to that very object.  So an
+    unsupported generator leaves the lookup as well as the list; when two generators share a (block, name)
+    the entry belongs to the one added last (`lookup_last_wins`), and deleting the other leaves it alone. -/
 theorem to_tough2_lookup (mp : Bool) (d d' : T2) (h : convertToTough2 mp d = (d', none))
-    (hk : (d.gendict.map (·.1)).Nodup)
-    (hwf : ∀ e ∈ d.gendict, ∀ g ∈ d.gens, g.id = e.2 → (g.block, g.name) = e.1)
-    (e : (Str × Str) × Nat) :
-    e ∈ d'.gendict ↔ e ∈ d.gendict ∧ ∀ g ∈ d.gens, toDelete g = true → g.id ≠ e.2 := by
+    (hk : (d.gendict.map (·.1)).Nodup) (e : (Str × Str) × Nat) :
+    (e ∈ d'.gendict ↔
+      e ∈ d.gendict ∧ ∀ g ∈ d.gens, toDelete g = true → ¬ (e.1 = (g.block, g.name) ∧ e.2 = g.id)) ∧
+    (d'.gendict.map (·.1)).Nodup := by
   obtain ⟨st, _, rfl⟩ := convertToTough2_ok h
-  exact convertGenerators_lookup d hk hwf e
+  exact ⟨convDict_mem d.gens d.gendict hk e, convDict_nodup_keys d.gens d.gendict hk⟩
 
-/-- List and lookup stay consistent: if every lookup entry pointed to a listed generator with
-    that block and name, it still does. -/
+/-- `self.generator[(block, name)] = gen` in `add_generator`: keys stay distinct, and after adding
+    generators one by one the entry of a (block, name) points to the last one added under it. -/
+theorem lookup_last_one_wins (gs : List Gener) (d : T2) (k : Str × Str) (hk : (d.gendict.map (·.1)).Nodup) :
+    ((gs.foldl addGenerator d).gendict.lookup k =
+      match gs.reverse.find? (fun g => (g.block, g.name) == k) with
+      | some g => some g.id
+      | none => d.gendict.lookup k) ∧
+    ((gs.foldl addGenerator d).gendict.map (·.1)).Nodup := by
+  refine ⟨lookup_last_wins gs d k, ?_⟩
+  induction gs generalizing d with
+  | nil => exact hk
+  | cons g r ih => exact ih (addGenerator d g) (addGenerator_nodup_keys d g hk)
+
+/-- List and lookup stay consistent: if every lookup entry pointed to a listed generator with that block
+    and name, it still does, and no entry points to a deleted generator. -/
 theorem to_tough2_list_lookup_consistent (mp : Bool) (d d' : T2) (h : convertToTough2 mp d = (d', none))
-    (hid : (d.gens.map (·.id)).Nodup) (hk : (d.gendict.map (·.1)).Nodup)
-    (hwf : ∀ e ∈ d.gendict, ∀ g ∈ d.gens, g.id = e.2 → (g.block, g.name) = e.1)
-    (hin : ∀ e ∈ d.gendict, ∃ g ∈ d.gens, g.id = e.2) :
+    (hid : SameObj d.gens) (hk : (d.gendict.map (·.1)).Nodup)
+    (hin : ∀ e ∈ d.gendict, ∃ g ∈ d.gens, g.id = e.2 ∧ (g.block, g.name) = e.1) :
     ∀ e ∈ d'.gendict, ∃ g ∈ d'.gens, g.id = e.2 ∧ (g.block, g.name) = e.1 := by
   intro e he
   have hgens := (to_tough2_generators mp d d' h hid).1
-  have hl := (to_tough2_lookup mp d d' h hk hwf e).mp he
-  obtain ⟨g, hg, hge⟩ := hin e hl.1
+  have hl := ((to_tough2_lookup mp d d' h hk e).1).mp he
+  obtain ⟨g, hg, hge, hgk⟩ := hin e hl.1
   have hnd : toDelete g = false := by
     cases hd : toDelete g with
     | false => rfl
-    | true => exact absurd hge (hl.2 g hg hd)
+    | true => exact absurd ⟨hgk.symm, hge.symm⟩ (hl.2 g hg hd)
   refine ⟨convGen g, ?_, ?_, ?_⟩
   · rw [hgens]
     exact List.mem_map.mpr ⟨g, List.mem_filter.mpr ⟨hg, by simp [hnd]⟩, rfl⟩
   · rw [convGen_id]; exact hge
-  · rw [convGen_block, convGen_name]; exact hwf e hl.1 g hg hge
+  · rw [convGen_block, convGen_name]; exact hgk
 
 /-- Grid, the other sections' data and SOLVR data are untouched; the history lists are the former
     short-output lists (where SHORT had such a list; otherwise they stay as they were). -/
@@ -801,9 +818,10 @@ example : convertToTough2 false sampleA = (sampleA', none) := by decide +kernel
 example : sampleA.lineq = [] ∨ ∃ i, Dict.get? sampleA.lineq kType = some (.int i) := Or.inr ⟨3, by decide⟩
 example : sampleA.sections.Nodup := by decide
 example : (sampleA.gens.map (·.id)).Nodup := by decide
+-- the same object listed twice satisfies SameObj too
+example : SameObj (sampleA.gens ++ sampleA.gens.take 2) := by unfold SameObj; decide
 example : (sampleA.gendict.map (·.1)).Nodup := by decide
-example : ∀ e ∈ sampleA.gendict, ∀ g ∈ sampleA.gens, g.id = e.2 → (g.block, g.name) = e.1 := by decide
-example : ∀ e ∈ sampleA.gendict, ∃ g ∈ sampleA.gens, g.id = e.2 := by decide
+example : ∀ e ∈ sampleA.gendict, ∃ g ∈ sampleA.gens, g.id = e.2 ∧ (g.block, g.name) = e.1 := by decide
 -- what comes out: MASS kept, CO2 converted, DELG and RECH gone from list and lookup, conductivity 5/2 · 3/4
 example : sampleA'.gens.map (·.type) = ["MASS".toList, "COM2".toList] ∧ sampleA'.gendict.map (·.2) = [3] ∧
     sampleA'.rocks.map (·.conductivity) = [15/8] ∧ sampleA'.sections = [ROCKS, PARAM, MULTI, ELEME, CONNE, GENER, SHORT] ∧
